@@ -4,6 +4,9 @@ import (
 	"context"
 	"errors"
 	"fmt"
+	"io"
+	"net/http"
+	"runtime"
 	"sort"
 	"strings"
 	"testing"
@@ -16,6 +19,13 @@ import (
 )
 
 // C10: MapReduce exactly-once mapping, complete reduction, clean termination.
+//
+// One run = one *scenario*: a single call, or two calls of the mr API (one after the other -
+// optionally on the same context -, side by side, or the second one nested inside a mapper
+// invocation of the first, its outcome forwarded to the outer cancel).  Every call has its own
+// plan (entry point, options, sizes, user-function behaviour, disturbances) and its own oracle
+// state (world); the termination oracle (no goroutine started by a call survives) is evaluated
+// once for the whole scenario.
 
 const (
 	dNone = iota
@@ -32,60 +42,221 @@ const (
 
 var dNames = []string{"none", "generator-panic", "mapper-panic", "reducer-panic", "mapper-cancel", "mapper-cancel-nil", "reducer-cancel", "ctx-cancel", "ctx-deadline", "stall"}
 
+// further, independent disturbances of the same call (the statement quantifies over every choice
+// of which invocations cancel or panic)
+const (
+	xMapCancel         = iota + 1 // mapper invocation `at` cancels
+	xRedCancel                    // the reducer cancels after `at` values
+	xMapPanic                     // mapper invocation `at` panics
+	xRedPanic                     // the reducer panics after `at` values
+	xMapCancelDetached            // mapper invocation `at` hands cancel to a goroutine of its own which calls it `delay` later (possibly after the call returned)
+	xMapPanicFrom                 // every mapper invocation from `at` on panics
+)
+
+var xNames = []string{"", "mapper-cancel", "reducer-cancel", "mapper-panic", "reducer-panic", "mapper-cancel-detached", "mapper-panic-from"}
+
+type extra struct {
+	kind      int
+	at        int
+	errKind   int
+	panicKind int
+	delay     time.Duration
+}
+
+// how the worker count is configured
+const (
+	optWorkers     = iota // WithWorkers(n), n >= 1
+	optDefault            // no WithWorkers at all
+	optZero               // WithWorkers(0)
+	optNegative           // WithWorkers(-k)
+	optTwice              // WithWorkers(other), WithWorkers(n)
+	optWorkersLast        // like optWorkers, but WithContext (if any) comes first in the option list
+)
+
+var optNames = []string{"workers", "default-workers", "workers-zero", "workers-negative", "workers-twice", "context-then-workers"}
+
 type plan struct {
 	variant int // 0 MapReduce 1 MapReduceVoid 2 MapReduceChan 3 ForEach 4 Finish 5 FinishVoid
 	items   int
-	workers int
-	fanout  []int // writes per item
-	redKind int   // 0 sum+write once at end, 1 write nothing, 2 write early (after first value) then keep consuming, 3 write twice
-	dist    int
-	distAt  int           // invocation index (item index for generator/mapper, consumed count for reducer)
-	distDur time.Duration // ctx instant / stall duration
-	workDur []time.Duration
-	genDur  time.Duration
-	useCtx  bool
-	// a second, independent canceller (the statement quantifies over every choice of which
-	// invocations cancel): 0 none, 1 a mapper invocation, 2 the reducer
-	dist2    int
-	dist2At  int
-	errKind  int  // dynamic type of the error passed by the first canceller
-	errKind2 int  // ... by the second canceller
-	fwdCtx   bool // mappers forward ctx.Err() through cancel once they see the context ended
+	workers int // argument of WithWorkers
+	optKind int
+	other   int // first WithWorkers of optTwice
+	eff     int // number of mappers one may expect to run side by side (sizing of the workload only)
+	bound   int // concurrency bound the property gives for this configuration; 0: none stated
+	fanout  []int
+	redKind int // 0 sum+write once at end, 1 write nothing, 2 write early (after first value) then keep consuming, 3 write twice
+	// the reducer stops consuming after redStop values and returns (-1: consumes until the pipe is closed)
+	redStop         int
+	redQuitOnCancel bool // a cancelling reducer returns right after its cancel call
+	dist            int
+	distAt          int           // invocation index (item index for generator/mapper, consumed count for reducer)
+	distDur         time.Duration // ctx instant / stall duration
+	workDur         []time.Duration
+	genDur          time.Duration
+	useCtx          bool
+	ctxDeadline     time.Duration // > 0: the context additionally carries this deadline (cancel-contexts and never-ending contexts)
+	ctxPreEnded     bool          // dCtxCancel: the context is cancelled before the call starts
+	errKind         int           // dynamic type / identity of the error passed by the first canceller
+	panicKind       int           // kind of value the first panicking function raises
+	extras          []extra
+	fwdCtx          bool // mappers forward ctx.Err() through cancel once they see the context ended
+	// nested scenario: mapper invocation nestAt runs the second call and (nestForward) passes its error to cancel
+	nestAt      int
+	nestForward bool
 }
 
-// customErr is a cancel error of a user-defined type.
+// ---- error values passed to cancel / returned by Finish functions
+
 type customErr struct{ tag string }
 
 func (e customErr) Error() string { return "custom cancel error " + e.tag }
 
+type ptrErr struct{ tag string }
+
+func (e *ptrErr) Error() string { return "pointer cancel error " + e.tag }
+
 var errBase = errors.New("base error")
 
-// mkErr builds a cancel error; the three kinds have three different dynamic types.
+var errKindNames = []string{"plain", "wrapped", "custom-struct", "custom-pointer", "joined",
+	"sentinel-ErrCancelWithNil", "sentinel-context.Canceled", "sentinel-context.DeadlineExceeded", "sentinel-io",
+	"sentinel-ErrReduceNoOutput", "wrapped-ErrReduceNoOutput"}
+
+// mkErr builds a cancel error: fresh values of five different dynamic types, the package's own
+// sentinels, the context sentinels (passed by the user, not produced by a context) and a foreign one.
 func mkErr(kind int, tag string) error {
 	switch kind {
 	case 1:
 		return fmt.Errorf("cancel-err-%s: %w", tag, errBase)
 	case 2:
 		return customErr{tag}
+	case 3:
+		return &ptrErr{tag}
+	case 4:
+		return errors.Join(fmt.Errorf("cancel-err-%s", tag), errBase)
+	case 5:
+		return mr.ErrCancelWithNil
+	case 6:
+		return context.Canceled
+	case 7:
+		return context.DeadlineExceeded
+	case 8:
+		return io.ErrUnexpectedEOF
+	case 9:
+		return mr.ErrReduceNoOutput
+	case 10:
+		return fmt.Errorf("inner call %s: %w", tag, mr.ErrReduceNoOutput)
 	default:
 		return fmt.Errorf("cancel-err-%s", tag)
 	}
 }
 
+func drawErrKind(t *simrt.Tape) int {
+	return []int{0, 0, 0, 1, 2, 3, 4, 5, 6, 7, 8, 9, 10}[t.Intn(13)]
+}
+
+// ---- panic values
+
+type customPanic struct{ tag string }
+
+type nilPanic struct{} // stands for panic(nil) in the list of raised panics
+
+var panicKindNames = []string{"string", "error", "wrapped-error", "runtime-error", "http.ErrAbortHandler", "struct", "nil", "int", "pointer"}
+
+func drawPanicKind(t *simrt.Tape) int {
+	return []int{0, 0, 0, 1, 2, 3, 4, 5, 6, 7, 8}[t.Intn(11)]
+}
+
+// nilMapWrite provokes a genuine runtime error.
+func nilMapWrite() {
+	var m map[int]int
+	m[0] = 1
+}
+
+func runtimeErrValue() (v any) {
+	defer func() { v = recover() }()
+	nilMapWrite()
+	return nil
+}
+
+// samePanic: is pv (what the call re-raised) the user's value up, possibly decorated?
+func samePanic(pv, up any) bool {
+	if _, ok := up.(nilPanic); ok {
+		if _, ok := pv.(*runtime.PanicNilError); ok {
+			return true
+		}
+		return strings.Contains(fmt.Sprint(pv), "panic called with nil argument")
+	}
+	if safeEq(pv, up) {
+		return true
+	}
+	if ue, ok := up.(error); ok {
+		if pe, ok := pv.(error); ok {
+			if errors.Is(pe, ue) {
+				return true
+			}
+			if _, ok := ue.(runtime.Error); ok {
+				if _, ok := pe.(runtime.Error); ok && pe.Error() == ue.Error() {
+					return true
+				}
+			}
+		}
+	}
+	// the library may decorate the value; it must still be the user's
+	u := fmt.Sprint(up)
+	return len(u) >= 6 && strings.Contains(fmt.Sprint(pv), u)
+}
+
+func safeEq(a, b any) (eq bool) {
+	defer func() {
+		if recover() != nil {
+			eq = false
+		}
+	}()
+	return a == b
+}
+
+// ---- contexts
+
+// ctxState is one context given to WithContext (two consecutive calls may share one).
+type ctxState struct {
+	ctx        context.Context
+	cancel     context.CancelFunc
+	fired      bool          // the harness cancelled it (set right before the cancel call)
+	firedAt    time.Duration // virtual instant of that
+	deadlineAt time.Duration // virtual instant of its deadline, -1: none
+	task       *simrt.Task
+}
+
+// endedBefore: the context had certainly ended strictly before virtual instant at.
+func (c *ctxState) endedBefore(at time.Duration) bool {
+	if c == nil {
+		return false
+	}
+	return c.fired && c.firedAt < at || c.deadlineAt >= 0 && c.deadlineAt < at
+}
+
 type world struct {
 	r   *simrt.Run
 	p   *plan
+	tag string
 	clk int
+
+	cs       *ctxState
+	sharedCs *ctxState // context of an earlier call to be used instead of an own one
+	nest     *world    // call to run inside mapper invocation p.nestAt
+	aux      []*simrt.Task
 
 	generated  []int
 	mapped     map[int]int
+	mapInv     int
 	written    []int // values written by mappers (accepted or not is unknown)
 	reduced    []int
+	redQuit    bool // the reducer returned without having seen the pipe closed
 	inMapper   int
 	maxIn      int
 	userActive int
 
-	userPanics        map[string]bool
+	userPanics        []any
 	cancelErrs        []error
 	cancelNil         bool
 	cancelInvokedAt   []time.Duration // virtual instants at which cancel was invoked
@@ -96,10 +267,25 @@ type world struct {
 	lastWriteStartClk int
 	lastWriteStartAt  time.Duration
 	redWriteReturned  int // writes that returned normally (a write that panicked inside the library does not)
+	redReturned       bool
+	redReturnClk      int // logical clock when the reducer function returned (or panicked)
 	redOutput         int
-	redWroteVal       bool
-	ctxEndedAt        time.Duration
-	ctxEnded          bool
+
+	// outcome of the call
+	invoked            bool
+	returned           bool
+	val                int
+	err                error
+	panicVal           any
+	retClk             int
+	cancelledAtReturn  bool // some cancel had been invoked when the call returned
+	ctxEndedAtReturn   bool // the context had ended when the call returned
+	returnedBeforeNest bool // nested scenario: this (outer) call had returned before the inner one did
+	checked            bool
+}
+
+func newWorld(r *simrt.Run, p *plan, tag string) *world {
+	return &world{r: r, p: p, tag: tag, mapped: map[int]int{}}
 }
 
 func (w *world) tick() int { w.clk++; return w.clk }
@@ -107,23 +293,79 @@ func (w *world) tick() int { w.clk++; return w.clk }
 func (w *world) enter() { w.userActive++ }
 func (w *world) leave() { w.userActive-- }
 
-func (w *world) doCancel(cancel func(error), err error) {
+func (w *world) doCancel(cancel func(error), err error, kind int) {
+	if w.p.variant == 4 {
+		// a function given to Finish "cancels" by returning the error; it is recorded when that happens
+		if kind >= 0 {
+			w.r.Probe("err-kind-" + errKindNames[kind])
+		}
+		cancel(err)
+		return
+	}
 	w.cancelInvokedAt = append(w.cancelInvokedAt, w.r.Elapsed())
 	if err == nil {
 		w.cancelNil = true
+		w.r.Probe("err-kind-nil")
 	} else {
 		w.cancelErrs = append(w.cancelErrs, err)
+		if kind >= 0 {
+			w.r.Probe("err-kind-" + errKindNames[kind])
+		}
+	}
+	if len(w.cancelInvokedAt) >= 2 {
+		w.r.Probe("second-canceller")
 	}
 	w.tick()
 	cancel(err)
 	w.cancelReturned = append(w.cancelReturned, w.tick())
 }
 
-func (w *world) userPanic(who string) {
-	v := fmt.Sprintf("user-panic-%s-%d", who, len(w.userPanics))
-	w.userPanics[v] = true
-	w.r.Probe("panic-" + who)
+// raise panics in the name of a user function with a value of the given kind.
+func (w *world) raise(who string, kind int) {
+	r := w.r
+	tag := fmt.Sprintf("%s-%s-%d", w.tag, who, len(w.userPanics))
+	var v any
+	switch kind {
+	case 1:
+		v = errors.New("user-panic-error-" + tag)
+	case 2:
+		v = fmt.Errorf("user-panic-wrapped-%s: %w", tag, errBase)
+	case 3:
+		v = runtimeErrValue()
+	case 4:
+		v = http.ErrAbortHandler
+	case 5:
+		v = customPanic{"user-panic-struct-" + tag}
+	case 6:
+		v = nilPanic{}
+	case 7:
+		v = 424242000 + len(w.userPanics)
+	case 8:
+		v = &customPanic{"user-panic-pointer-" + tag}
+	default:
+		v = "user-panic-" + tag
+	}
+	w.notePanic(who, v)
+	r.Probe("panic-kind-" + panicKindNames[kind])
+	switch kind {
+	case 3:
+		nilMapWrite()
+	case 6:
+		var null any
+		panic(null)
+	}
 	panic(v)
+}
+
+func (w *world) notePanic(who string, v any) {
+	w.userPanics = append(w.userPanics, v)
+	w.r.Probe("panic-" + who)
+	if len(w.userPanics) >= 2 {
+		w.r.Probe("multi-panic")
+	}
+	if w.returned {
+		w.r.Probe("panic-after-return")
+	}
 }
 
 func (w *world) work(d time.Duration) {
@@ -138,23 +380,61 @@ func (w *world) work(d time.Duration) {
 	}
 }
 
-func drawPlan(t *simrt.Tape, tier string) *plan {
-	p := &plan{}
+func drawPlan(t *simrt.Tape, tier string, small bool) *plan {
+	p := &plan{redStop: -1}
 	p.variant = []int{0, 0, 0, 1, 2, 3, 4, 5}[t.Intn(8)]
 	maxW := 4
 	if tier == "thorough" {
 		maxW = 8
 	}
-	p.workers = t.Range(1, maxW)
-	p.items = t.Intn(3*p.workers + 1)
-	if p.variant >= 4 && p.items == 0 {
-		p.items = 1
+	if small {
+		maxW = 2
 	}
+	p.workers = t.Range(1, maxW)
+	p.eff, p.bound = p.workers, p.workers
+	maxItems := 3 * p.workers
+	if p.variant < 4 {
+		p.optKind = []int{optWorkers, optWorkers, optWorkers, optWorkers, optDefault, optZero, optNegative, optTwice, optWorkersLast, optWorkers}[t.Intn(10)]
+		switch p.optKind {
+		case optDefault:
+			// nothing configured: the statement gives no bound; size the workload beyond what the
+			// implementation is likely to run side by side
+			p.eff, p.bound = 16, 0
+			maxItems = 6
+			if !small && t.Chance(1, 3) {
+				maxItems = 20
+			}
+		case optZero:
+			// a mapper must run for the items to be mapped at all, more than one is more than configured
+			p.workers, p.eff, p.bound = 0, 1, 1
+			maxItems = 4
+		case optNegative:
+			p.workers, p.eff, p.bound = -t.Range(1, 3), 1, 1
+			maxItems = 4
+		case optTwice:
+			p.other = t.Range(1, maxW)
+			// options are applied in order; accept either reading of "the configured number"
+			if p.other > p.bound {
+				p.bound = p.other
+			}
+		}
+	}
+	p.items = t.Intn(maxItems + 1)
 	if p.variant >= 4 {
-		p.workers = p.items
+		// Finish(fns...) / FinishVoid(fns...): zero functions is the simplest call
+		p.workers, p.eff, p.bound = p.items, p.items, 0
+	}
+	big := p.eff + 1
+	if big > 17 {
+		big = 17
 	}
 	for i := 0; i < p.items; i++ {
-		p.fanout = append(p.fanout, []int{1, 1, 0, 2, 3}[t.Intn(5)])
+		f := []int{1, 1, 0, 2, 3, 1, 1, -1}[t.Intn(8)]
+		if f < 0 {
+			// one invocation writes more than a pipe sized after the worker count can hold
+			f = big + t.Intn(3)
+		}
+		p.fanout = append(p.fanout, f)
 		var d time.Duration
 		switch t.Intn(6) {
 		case 0, 1, 2:
@@ -171,16 +451,39 @@ func drawPlan(t *simrt.Tape, tier string) *plan {
 		p.genDur = time.Duration(t.Range(1, 500)) * time.Millisecond
 	}
 	p.redKind = []int{0, 0, 0, 1, 2, 2, 3}[t.Intn(7)]
+	if t.Chance(1, 6) {
+		p.redStop = t.Intn(p.items + 2)
+	}
 	if t.Chance(3, 5) {
 		p.dist = 1 + t.Intn(9)
 		p.distAt = t.Intn(p.items + 1)
 		p.distDur = []time.Duration{0, time.Millisecond, 10 * time.Millisecond, time.Second, 5 * time.Second}[t.Intn(5)]
+		p.errKind = drawErrKind(t)
+		p.panicKind = drawPanicKind(t)
+		p.redQuitOnCancel = t.Chance(1, 3)
 	}
 	p.useCtx = p.dist == dCtxCancel || p.dist == dCtxDeadline || t.Chance(1, 5)
-	if p.dist != dNone && t.Chance(1, 3) {
-		p.dist2 = 1 + t.Intn(2)
-		p.dist2At = t.Intn(p.items + 1)
-		p.errKind, p.errKind2 = t.Intn(3), t.Intn(3)
+	if p.variant >= 4 {
+		p.useCtx = false // Finish / FinishVoid take no options
+	}
+	if p.useCtx && p.dist != dCtxDeadline && t.Chance(1, 3) {
+		p.ctxDeadline = []time.Duration{time.Hour, time.Hour, 5 * time.Second, 10 * time.Millisecond}[t.Intn(4)]
+	}
+	if p.dist == dCtxCancel && t.Chance(1, 6) {
+		p.ctxPreEnded = true
+	}
+	if p.dist != dNone && t.Chance(1, 3) || p.dist == dNone && t.Chance(1, 8) {
+		n := []int{1, 1, 1, 2, 3}[t.Intn(5)]
+		for i := 0; i < n; i++ {
+			x := extra{kind: []int{xMapCancel, xRedCancel, xMapCancel, xRedCancel, xMapPanic, xRedPanic, xMapCancelDetached, xMapPanicFrom, xMapCancelDetached}[t.Intn(9)]}
+			x.at = t.Intn(p.items + 1)
+			x.errKind = drawErrKind(t)
+			x.panicKind = drawPanicKind(t)
+			if x.kind == xMapCancelDetached {
+				x.delay = []time.Duration{0, time.Millisecond, time.Second, 30 * time.Second}[t.Intn(4)]
+			}
+			p.extras = append(p.extras, x)
+		}
 	}
 	if p.useCtx && t.Chance(1, 3) {
 		p.fwdCtx = true
@@ -188,311 +491,557 @@ func drawPlan(t *simrt.Tape, tier string) *plan {
 	return p
 }
 
-func body(r *simrt.Run, tier string) {
-	p := drawPlan(r.Tape, tier)
-	w := &world{r: r, p: p, mapped: map[int]int{}, userPanics: map[string]bool{}}
-	if r.Tracing() {
-		r.Logf("plan: variant=%d items=%d workers=%d fanout=%v red=%d dist=%s at=%d dur=%v work=%v gen=%v ctx=%v",
-			p.variant, p.items, p.workers, p.fanout, p.redKind, dNames[p.dist], p.distAt, p.distDur, p.workDur, p.genDur, p.useCtx)
+func (p *plan) summary() map[string]any {
+	var xs []string
+	for _, x := range p.extras {
+		xs = append(xs, fmt.Sprintf("%s@%d", xNames[x.kind], x.at))
 	}
-	r.Sample(map[string]any{"variant": []string{"MapReduce", "MapReduceVoid", "MapReduceChan", "ForEach", "Finish", "FinishVoid"}[p.variant],
-		"items": p.items, "workers": p.workers, "fanout": fmt.Sprint(p.fanout), "reducer": []string{"sum-write-once", "write-nothing", "write-early", "write-twice"}[p.redKind],
-		"disturbance": dNames[p.dist], "at": p.distAt, "dur": p.distDur.String()})
-	r.Probe("dist-" + dNames[p.dist])
+	return map[string]any{"variant": []string{"MapReduce", "MapReduceVoid", "MapReduceChan", "ForEach", "Finish", "FinishVoid"}[p.variant],
+		"items": p.items, "options": optNames[p.optKind], "workers": p.workers, "fanout": fmt.Sprint(p.fanout),
+		"reducer": []string{"sum-write-once", "write-nothing", "write-early", "write-twice"}[p.redKind], "reducer_stops_after": p.redStop,
+		"disturbance": dNames[p.dist], "at": p.distAt, "dur": p.distDur.String(), "error": errKindNames[p.errKind], "panic": panicKindNames[p.panicKind],
+		"more": strings.Join(xs, " "), "ctx": p.useCtx, "ctx_deadline": p.ctxDeadline.String()}
+}
 
-	ctx := context.Background()
-	var cancelCtx context.CancelFunc
-	if p.useCtx {
-		switch p.dist {
-		case dCtxDeadline:
-			ctx, cancelCtx = context.WithTimeout(ctx, p.distDur)
-		default:
-			ctx, cancelCtx = context.WithCancel(ctx)
-		}
-		defer cancelCtx()
+// setupCtx builds the context of the call (at the moment the call starts) and starts its canceller.
+func (w *world) setupCtx() {
+	r, p := w.r, w.p
+	if !p.useCtx {
+		return
 	}
-	var ctxTask *simrt.Task
-	if p.dist == dCtxCancel {
-		ctxTask = r.Go("ctx-canceller", func() {
-			if p.distDur > 0 {
+	if w.sharedCs != nil {
+		w.cs = w.sharedCs
+		if w.cs.ctx.Err() != nil {
+			r.Probe("ctx-shared-ended-before-second-call")
+		}
+		return
+	}
+	cs := &ctxState{deadlineAt: -1}
+	w.cs = cs
+	now := r.Elapsed()
+	switch {
+	case p.dist == dCtxDeadline:
+		cs.ctx, cs.cancel = context.WithTimeout(context.Background(), p.distDur)
+		cs.deadlineAt = now + p.distDur
+	case p.ctxDeadline > 0:
+		parent, cancelParent := context.WithCancel(context.Background())
+		var cancelChild context.CancelFunc
+		cs.ctx, cancelChild = context.WithTimeout(parent, p.ctxDeadline)
+		cs.cancel = func() { cancelParent(); cancelChild() }
+		cs.deadlineAt = now + p.ctxDeadline
+		if p.dist == dCtxCancel {
+			r.Probe("ctx-cancel-with-deadline")
+		} else {
+			r.Probe("ctx-undisturbed-with-deadline")
+		}
+	default:
+		cs.ctx, cs.cancel = context.WithCancel(context.Background())
+	}
+	if p.dist != dCtxCancel {
+		return
+	}
+	if p.ctxPreEnded {
+		r.Probe("ctx-cancelled-before-call")
+		cs.fired, cs.firedAt = true, now
+		cs.cancel()
+		return
+	}
+	cs.task = r.Go("ctx-canceller-"+w.tag, func() {
+		if p.distDur > 0 {
+			r.Sleep(p.distDur)
+		} else {
+			for i := 0; i < p.distAt; i++ {
+				r.Yield()
+			}
+		}
+		cs.fired, cs.firedAt = true, r.Elapsed()
+		w.tick()
+		cs.cancel()
+	})
+}
+
+func (w *world) options() []mr.Option {
+	p := w.p
+	var opts []mr.Option
+	ctxOpt := func() {
+		if p.useCtx {
+			opts = append(opts, mr.WithContext(w.cs.ctx))
+		}
+	}
+	if p.optKind == optWorkersLast {
+		ctxOpt()
+	}
+	switch p.optKind {
+	case optDefault:
+	case optTwice:
+		opts = append(opts, mr.WithWorkers(p.other), mr.WithWorkers(p.workers))
+	default:
+		opts = append(opts, mr.WithWorkers(p.workers))
+	}
+	if p.optKind != optWorkersLast {
+		ctxOpt()
+	}
+	return opts
+}
+
+func (w *world) generate(source chan<- int) {
+	r, p := w.r, w.p
+	w.enter()
+	defer w.leave()
+	for i := 0; i < p.items; i++ {
+		if p.dist == dGenPanic && i == p.distAt {
+			w.raise("generator", p.panicKind)
+		}
+		if p.dist == dStall && i == p.distAt && p.distAt%3 == 0 {
+			r.Sleep(p.distDur)
+		}
+		if p.genDur > 0 {
+			r.Sleep(p.genDur)
+		}
+		w.generated = append(w.generated, i)
+		simrt.Send("gen", source, i)
+	}
+	if p.dist == dGenPanic && p.distAt >= p.items {
+		w.raise("generator", p.panicKind)
+	}
+}
+
+// mapper is the mapper of every entry point; cancel is nil where the entry point has none (ForEach, FinishVoid).
+func (w *world) mapper(item int, writer mr.Writer[int], cancel func(error)) {
+	r, p := w.r, w.p
+	w.enter()
+	defer w.leave()
+	inv := w.mapInv
+	w.mapInv++
+	w.mapped[item]++
+	w.inMapper++
+	if w.inMapper > w.maxIn {
+		w.maxIn = w.inMapper
+	}
+	if p.bound > 0 && w.inMapper > p.bound {
+		r.Fail("too-many-mappers", "%d mappers running concurrently, configured workers=%d (options %s)", w.inMapper, p.workers, optNames[p.optKind])
+	}
+	defer func() { w.inMapper-- }()
+	w.work(p.workDur[item%len(p.workDur)])
+	if w.nest != nil && inv == p.nestAt {
+		in := w.nest
+		in.invoke()
+		if w.returned {
+			w.returnedBeforeNest = true
+			r.Probe("nested-call-outlived-outer")
+		}
+		if in.panicVal != nil {
+			// the inner call re-raised: this invocation dies of the same value
+			r.Probe("nested-inner-panicked")
+			w.notePanic("mapper", in.panicVal)
+			panic(in.panicVal)
+		}
+		if in.err != nil && p.nestForward && cancel != nil {
+			r.Probe("nested-error-forwarded")
+			w.doCancel(cancel, in.err, -1)
+		}
+	}
+	if inv == p.distAt {
+		switch p.dist {
+		case dMapPanic:
+			w.raise("mapper", p.panicKind)
+		case dMapCancel:
+			if cancel != nil {
+				w.doCancel(cancel, mkErr(p.errKind, fmt.Sprintf("%s-mapper-%d", w.tag, inv)), p.errKind)
+			}
+		case dMapCancelNil:
+			if cancel != nil && p.variant < 4 {
+				w.doCancel(cancel, nil, -1)
+			}
+		case dStall:
+			if p.distAt%3 == 1 {
 				r.Sleep(p.distDur)
-			} else {
-				for i := 0; i < p.distAt; i++ {
+			}
+		}
+	}
+	for xi, x := range p.extras {
+		x := x
+		switch {
+		case x.kind == xMapCancel && inv == x.at && cancel != nil:
+			w.doCancel(cancel, mkErr(x.errKind, fmt.Sprintf("%s-mapper-x%d-%d", w.tag, xi, inv)), x.errKind)
+		case x.kind == xMapPanic && inv == x.at, x.kind == xMapPanicFrom && inv >= x.at:
+			w.raise("mapper", x.panicKind)
+		case x.kind == xMapCancelDetached && inv == x.at && cancel != nil && p.variant < 4:
+			e := mkErr(x.errKind, fmt.Sprintf("%s-detached-x%d-%d", w.tag, xi, inv))
+			w.aux = append(w.aux, r.Go("detached-cancel-"+w.tag, func() {
+				if x.delay > 0 {
+					r.Sleep(x.delay)
+				} else {
 					r.Yield()
 				}
-			}
-			w.ctxEnded, w.ctxEndedAt = true, r.Elapsed()
-			w.tick()
-			cancelCtx()
-		})
+				r.Probe("detached-cancel")
+				if w.returned {
+					r.Probe("detached-cancel-after-return")
+				}
+				w.doCancel(cancel, e, x.errKind)
+			}))
+		}
 	}
+	if p.fwdCtx && cancel != nil && w.cs != nil {
+		if e := w.cs.ctx.Err(); e != nil {
+			r.Probe("mapper-forwards-ctx-err")
+			w.doCancel(cancel, e, -1)
+		}
+	}
+	for k := 0; k < p.fanout[item]; k++ {
+		v := item*100 + k
+		w.written = append(w.written, v)
+		writer.Write(v)
+	}
+	if p.variant <= 2 && p.fanout[item] > p.eff {
+		r.Probe("fanout-beyond-pipe")
+	}
+}
 
-	generate := func(source chan<- int) {
-		w.enter()
-		defer w.leave()
-		for i := 0; i < p.items; i++ {
-			if p.dist == dGenPanic && i == p.distAt {
-				w.userPanic("generator")
-			}
-			if p.dist == dStall && i == p.distAt && p.distAt%3 == 0 {
-				r.Sleep(p.distDur)
-			}
-			if p.genDur > 0 {
-				r.Sleep(p.genDur)
-			}
-			w.generated = append(w.generated, i)
-			simrt.Send("gen", source, i)
+func (w *world) reducer(pipe <-chan int, writer mr.Writer[int], cancel func(error)) {
+	r, p := w.r, w.p
+	w.enter()
+	defer w.leave()
+	defer func() { w.redReturned, w.redReturnClk = true, w.tick() }()
+	sum, n := 0, 0
+	write := func(v int) {
+		if w.redWrites == 0 {
+			w.redWriteStartClk = w.tick()
+			w.redWriteStartAt = r.Elapsed()
+			w.redOutput = v
 		}
-		if p.dist == dGenPanic && p.distAt >= p.items {
-			w.userPanic("generator")
-		}
+		w.redWrites++
+		w.lastWriteStartClk = w.tick()
+		w.lastWriteStartAt = r.Elapsed()
+		writer.Write(v)
+		w.redWriteReturned++
 	}
-	mapInv := 0
-	mapper := func(item int, writer mr.Writer[int], cancel func(error)) {
-		w.enter()
-		defer w.leave()
-		inv := mapInv
-		mapInv++
-		w.mapped[item]++
-		w.inMapper++
-		if w.inMapper > w.maxIn {
-			w.maxIn = w.inMapper
-		}
-		if w.inMapper > p.workers {
-			r.Fail("too-many-mappers", "%d mappers running concurrently, workers=%d", w.inMapper, p.workers)
-		}
-		defer func() { w.inMapper-- }()
-		w.work(p.workDur[item%len(p.workDur)])
-		if inv == p.distAt {
+	// check runs the disturbances due after n values; true: the reducer returns at once
+	check := func() bool {
+		quit := false
+		if n == p.distAt {
 			switch p.dist {
-			case dMapPanic:
-				w.userPanic("mapper")
-			case dMapCancel:
-				w.doCancel(cancel, mkErr(p.errKind, fmt.Sprintf("mapper-%d", inv)))
-			case dMapCancelNil:
-				w.doCancel(cancel, nil)
+			case dRedPanic:
+				w.raise("reducer", p.panicKind)
+			case dRedCancel:
+				w.doCancel(cancel, mkErr(p.errKind, fmt.Sprintf("%s-reducer-%d", w.tag, n)), p.errKind)
+				quit = p.redQuitOnCancel
 			case dStall:
-				if p.distAt%3 == 1 {
+				if p.distAt%3 == 2 {
 					r.Sleep(p.distDur)
 				}
 			}
 		}
-		if p.dist2 == 1 && inv == p.dist2At {
-			r.Probe("second-canceller")
-			w.doCancel(cancel, mkErr(p.errKind2, fmt.Sprintf("mapper2-%d", inv)))
-		}
-		if p.fwdCtx {
-			if e := ctx.Err(); e != nil {
-				r.Probe("mapper-forwards-ctx-err")
-				w.doCancel(cancel, e)
+		for xi, x := range p.extras {
+			switch {
+			case x.kind == xRedCancel && n == x.at:
+				w.doCancel(cancel, mkErr(x.errKind, fmt.Sprintf("%s-reducer-x%d-%d", w.tag, xi, n)), x.errKind)
+			case x.kind == xRedPanic && n == x.at:
+				w.raise("reducer", x.panicKind)
 			}
 		}
-		for k := 0; k < p.fanout[item]; k++ {
-			v := item*10 + k
-			w.written = append(w.written, v)
-			writer.Write(v)
+		if quit {
+			w.redQuit = true
+			r.Probe("reducer-returns-after-cancel")
 		}
+		return quit
 	}
-	reducer := func(pipe <-chan int, writer mr.Writer[int], cancel func(error)) {
-		w.enter()
-		defer w.leave()
-		sum, n := 0, 0
-		write := func(v int) {
-			if w.redWrites == 0 {
-				w.redWriteStartClk = w.tick()
-				w.redWriteStartAt = r.Elapsed()
-				w.redOutput = v
-			}
-			w.redWrites++
-			w.lastWriteStartClk = w.tick()
-			w.lastWriteStartAt = r.Elapsed()
-			writer.Write(v)
-			w.redWriteReturned++
-		}
-		check := func() {
-			if n == p.distAt {
-				switch p.dist {
-				case dRedPanic:
-					w.userPanic("reducer")
-				case dRedCancel:
-					w.doCancel(cancel, mkErr(p.errKind, fmt.Sprintf("reducer-%d", n)))
-				case dStall:
-					if p.distAt%3 == 2 {
-						r.Sleep(p.distDur)
-					}
-				}
-			}
-			if p.dist2 == 2 && n == p.dist2At {
-				r.Probe("second-canceller")
-				w.doCancel(cancel, mkErr(p.errKind2, fmt.Sprintf("reducer2-%d", n)))
-			}
-		}
-		check()
-		for {
-			v, ok := simrt.Recv2("reducer", pipe)
-			if !ok {
-				break
-			}
-			w.reduced = append(w.reduced, v)
-			sum += v
-			n++
-			if p.redKind == 2 && n == 1 {
-				write(1_000_000 + v)
-			}
-			check()
-		}
-		switch p.redKind {
-		case 0:
-			write(sum)
-		case 3:
-			write(sum)
-			write(sum + 1)
-		}
-	}
-
-	// the call itself runs in a client task so that a hang becomes a verdict
-	var (
-		val      int
-		err      error
-		panicVal any
-		returned bool // set when the caller task ended
-		retClk   int
-		hasVal   = p.variant == 0 || p.variant == 2
-		fnRuns   = map[int]int{}
-	)
-	caller := r.Go("caller", func() {
-		defer func() {
-			panicVal = recover()
-			returned = true
-			_ = returned
-			retClk = w.tick()
-		}()
-		opts := []mr.Option{mr.WithWorkers(p.workers)}
-		if p.useCtx {
-			opts = append(opts, mr.WithContext(ctx))
-		}
-		switch p.variant {
-		case 0:
-			val, err = mr.MapReduce(generate, mapper, reducer, opts...)
-		case 1:
-			err = mr.MapReduceVoid(generate, mapper, func(pipe <-chan int, cancel func(error)) {
-				reducer(pipe, nopWriter{}, cancel)
-			}, opts...)
-		case 2:
-			source := make(chan int)
-			r.Go("feeder", func() {
-				defer func() {
-					if rec := recover(); rec != nil {
-						// a panicking feeder is outside the call; just close
-					}
-					simrt.Close("feeder", source)
-				}()
-				pp := *p
-				_ = pp
-				w.enter()
-				defer w.leave()
-				for i := 0; i < p.items; i++ {
-					if p.genDur > 0 {
-						r.Sleep(p.genDur)
-					}
-					w.generated = append(w.generated, i)
-					simrt.Send("feeder", source, i)
-				}
-			})
-			val, err = mr.MapReduceChan(source, mapper, reducer, opts...)
-		case 3:
-			mr.ForEach(generate, func(item int) {
-				mapper(item, nopWriter{}, func(error) {})
-			}, opts...)
-		case 4, 5:
-			var fns []func() error
-			var vfns []func()
-			for i := 0; i < p.items; i++ {
-				i := i
-				fn := func() error {
-					w.enter()
-					defer w.leave()
-					fnRuns[i]++
-					w.inMapper++
-					if w.inMapper > w.maxIn {
-						w.maxIn = w.inMapper
-					}
-					defer func() { w.inMapper-- }()
-					w.work(p.workDur[i])
-					if i == p.distAt {
-						switch p.dist {
-						case dMapPanic:
-							w.userPanic("mapper")
-						case dMapCancel:
-							e := fmt.Errorf("cancel-err-fn-%d", i)
-							w.cancelErrs = append(w.cancelErrs, e)
-							w.cancelInvokedAt = append(w.cancelInvokedAt, r.Elapsed())
-							return e
-						}
-					}
-					return nil
-				}
-				fns = append(fns, fn)
-				vfns = append(vfns, func() { fn() })
-			}
-			if p.variant == 4 {
-				err = mr.Finish(fns...)
-			} else {
-				mr.FinishVoid(vfns...)
-			}
-		}
-	})
-
-	if !r.JoinTimeout(2*time.Hour, caller) {
-		class := "stuck"
-		if w.redWrites > 0 && len(w.userPanics) > 0 {
-			// scenario class: the reducer had already written its output when a user function panicked
-			class = "stuck/panic-after-reducer-output"
-		}
-		r.Fail(class, "the call did not return within 2h of virtual time (disturbance %s, reducer writes so far %d, user panics %d); alive: %v", dNames[p.dist], w.redWrites, len(w.userPanics), r.AliveTasks())
+	if check() {
 		return
 	}
-	if ctxTask != nil {
-		r.JoinTimeout(time.Hour, ctxTask)
-	}
-	if p.dist == dCtxDeadline && r.Elapsed() >= p.distDur {
-		w.ctxEnded, w.ctxEndedAt = true, p.distDur
-	}
-	r.Probe("oracle")
-	w.checkOutcome(val, err, panicVal, hasVal, fnRuns, retClk)
-	if r.Failed() {
-		return
-	}
-	// clean termination: let everything the call started wind down (user functions may still
-	// be finishing their virtual work), then nothing started by the call may be alive
-	prev, same := "", 0
-	for i := 0; i < 50 && (w.userActive > 0 || len(callTasks(r)) > 0) && same < 3; i++ {
-		r.Sleep(10 * time.Second)
-		r.Quiesce()
-		now := fmt.Sprint(w.userActive, callTasks(r))
-		if now == prev {
-			same++
-		} else {
-			prev, same = now, 0
+	for {
+		if p.redStop >= 0 && n >= p.redStop {
+			// a reducer that has seen enough: it returns without waiting for the pipe to be closed
+			w.redQuit = true
+			r.Probe("reducer-returns-early")
+			break
+		}
+		v, ok := simrt.Recv2("reducer", pipe)
+		if !ok {
+			break
+		}
+		w.reduced = append(w.reduced, v)
+		sum += v
+		n++
+		if p.redKind == 2 && n == 1 {
+			write(1_000_000 + v)
+		}
+		if check() {
+			return
 		}
 	}
-	if w.userActive > 0 {
-		r.Fail("user-fn-stuck", "user functions still running long after the call returned: %d (alive: %v)", w.userActive, r.AliveTasks())
-		return
-	}
-	if left := callTasks(r); len(left) > 0 {
-		class := "goroutine-leak"
-		if w.writeRacedClose() {
-			// scenario class: a reducer write was in flight when output got closed (cancel / context end)
-			class = "goroutine-leak/reducer-write-races-close"
-		}
-		r.Fail(class, "goroutines started by the call are still alive after all user functions returned (disturbance %s, variant %d): %v", dNames[p.dist], p.variant, left)
+	switch p.redKind {
+	case 0:
+		write(sum)
+	case 3:
+		write(sum)
+		write(sum + 1)
 	}
 }
 
 type nopWriter struct{}
 
 func (nopWriter) Write(int) {}
+
+// invoke performs the call in the current task and records its outcome.
+func (w *world) invoke() {
+	r, p := w.r, w.p
+	w.invoked = true
+	w.setupCtx()
+	r.Probe("dist-" + dNames[p.dist])
+	r.Probe("opt-" + optNames[p.optKind])
+	if p.optKind == optDefault && p.items > 16 {
+		r.Probe("items-beyond-default-workers")
+	}
+	defer func() {
+		w.panicVal = recover()
+		w.cancelledAtReturn = len(w.cancelErrs) > 0 || w.cancelNil
+		w.ctxEndedAtReturn = w.cs != nil && (w.cs.fired || w.cs.ctx.Err() != nil)
+		w.returned = true
+		w.retClk = w.tick()
+	}()
+	opts := w.options()
+	switch p.variant {
+	case 0:
+		w.val, w.err = mr.MapReduce(w.generate, w.mapper, w.reducer, opts...)
+	case 1:
+		w.err = mr.MapReduceVoid(w.generate, w.mapper, func(pipe <-chan int, cancel func(error)) {
+			w.reducer(pipe, nopWriter{}, cancel)
+		}, opts...)
+	case 2:
+		source := make(chan int)
+		w.aux = append(w.aux, r.Go("feeder-"+w.tag, func() {
+			defer simrt.Close("feeder", source)
+			w.enter()
+			defer w.leave()
+			for i := 0; i < p.items; i++ {
+				if p.genDur > 0 {
+					r.Sleep(p.genDur)
+				}
+				w.generated = append(w.generated, i)
+				simrt.Send("feeder", source, i)
+			}
+		}))
+		w.val, w.err = mr.MapReduceChan(source, w.mapper, w.reducer, opts...)
+	case 3:
+		mr.ForEach(w.generate, func(item int) {
+			w.mapper(item, nopWriter{}, nil)
+		}, opts...)
+	case 4, 5:
+		var fns []func() error
+		var vfns []func()
+		for i := 0; i < p.items; i++ {
+			i := i
+			fns = append(fns, func() error {
+				// the function's way to cancel is its return value: the first error it "cancels" with
+				var ret error
+				w.mapper(i, nopWriter{}, func(e error) {
+					if ret == nil {
+						ret = e
+					}
+				})
+				if ret != nil {
+					w.cancelErrs = append(w.cancelErrs, ret)
+					w.cancelInvokedAt = append(w.cancelInvokedAt, r.Elapsed())
+				}
+				return ret
+			})
+			vfns = append(vfns, func() { w.mapper(i, nopWriter{}, nil) })
+		}
+		if p.items == 0 {
+			r.Probe("finish-no-functions")
+		}
+		if p.variant == 4 {
+			w.err = mr.Finish(fns...)
+		} else {
+			mr.FinishVoid(vfns...)
+		}
+	}
+}
+
+func body(r *simrt.Run, tier string) {
+	t := r.Tape
+	// scenario: 0 one call; 1 two calls one after the other; 2 two calls side by side; 3 the second
+	// call runs inside a mapper invocation of the first
+	mode := []int{0, 0, 0, 0, 0, 0, 0, 1, 2, 3}[t.Intn(10)]
+	p1 := drawPlan(t, tier, false)
+	w1 := newWorld(r, p1, "a")
+	worlds := []*world{w1}
+	var w2 *world
+	var gap time.Duration
+	shareCtx := false
+	if mode != 0 {
+		p2 := drawPlan(t, tier, true)
+		w2 = newWorld(r, p2, "b")
+		worlds = append(worlds, w2)
+		switch mode {
+		case 1:
+			gap = []time.Duration{0, time.Millisecond, time.Second, 10 * time.Second}[t.Intn(4)]
+			if p1.useCtx && p2.variant < 4 && t.Chance(1, 2) {
+				// the second call is given the context of the first
+				p2.useCtx, p2.ctxDeadline, p2.ctxPreEnded = true, 0, false
+				if p2.dist == dCtxCancel || p2.dist == dCtxDeadline {
+					p2.dist = dNone
+				}
+				shareCtx = true
+			}
+		case 3:
+			p1.nestAt = t.Intn(p1.items + 1)
+			p1.nestForward = !t.Chance(1, 4)
+			w1.nest = w2
+		}
+	}
+	modeName := []string{"single", "sequential", "concurrent", "nested"}[mode]
+	r.Probe("mode-" + modeName)
+	sample := map[string]any{"scenario": modeName, "call": w1.p.summary()}
+	if w2 != nil {
+		sample["second_call"] = w2.p.summary()
+	}
+	r.Sample(sample)
+	if r.Tracing() {
+		r.Logf("scenario %s: %v", modeName, sample)
+	}
+	defer func() {
+		for _, w := range worlds {
+			if w.cs != nil && w.cs.cancel != nil {
+				w.cs.cancel()
+			}
+		}
+	}()
+
+	// every call runs in a client task of its own so that a hang becomes a verdict
+	start := func(w *world) *simrt.Task { return r.Go("caller-"+w.tag, w.invoke) }
+	wait := func(w *world, caller *simrt.Task) bool {
+		if r.JoinTimeout(2*time.Hour, caller) {
+			return true
+		}
+		class := "stuck"
+		if w.redWrites > 0 && len(w.userPanics) > 0 {
+			// scenario class: the reducer had already written its output when a user function panicked
+			class = "stuck/panic-after-reducer-output"
+		}
+		r.Fail(class, "call %s did not return within 2h of virtual time (scenario %s, disturbance %s, options %s, reducer writes so far %d, user panics %d); alive: %v",
+			w.tag, modeName, dNames[w.p.dist], optNames[w.p.optKind], w.redWrites, len(w.userPanics), r.AliveTasks())
+		return false
+	}
+	switch mode {
+	case 2:
+		c1, c2 := start(w1), start(w2)
+		if !wait(w1, c1) || !wait(w2, c2) {
+			return
+		}
+	case 1:
+		if !wait(w1, start(w1)) {
+			return
+		}
+		if gap > 0 {
+			r.Sleep(gap)
+		}
+		if shareCtx {
+			w2.sharedCs = w1.cs
+		}
+		if !wait(w2, start(w2)) {
+			return
+		}
+	default:
+		if !wait(w1, start(w1)) {
+			return
+		}
+	}
+	r.Probe("oracle")
+	for _, w := range worlds {
+		if w == w2 && mode == 3 {
+			continue
+		}
+		w.checkOutcome()
+		if r.Failed() {
+			return
+		}
+	}
+	if mode == 3 {
+		// the outer call may return (cancel, context end, panic elsewhere) while the mapper invocation
+		// holding the inner call is still on its way - or has not even started: the inner call's
+		// outcome is judged once no user function of the outer call is in flight any more (at
+		// quiescence, so that an invocation already dispatched has begun)
+		d := time.Millisecond
+		for spent := time.Duration(0); spent < 3*time.Hour; spent += d {
+			r.Quiesce()
+			if w2.returned || w1.userActive == 0 {
+				break
+			}
+			r.Sleep(d)
+			if d < 5*time.Minute {
+				d *= 2
+			}
+		}
+		if w2.invoked && !w2.returned {
+			r.Fail("stuck", "the nested call b did not return within 2h of virtual time after the outer call returned (disturbance %s, options %s); alive: %v", dNames[w2.p.dist], optNames[w2.p.optKind], r.AliveTasks())
+			return
+		}
+		if w2.returned {
+			if !w1.returnedBeforeNest {
+				r.Probe("nested-call-completed-inside-outer")
+			}
+			w2.checkOutcome()
+			if r.Failed() {
+				return
+			}
+		}
+	}
+	for _, w := range worlds {
+		if w.cs != nil && w.cs.task != nil {
+			r.JoinTimeout(time.Hour, w.cs.task)
+		}
+	}
+	// clean termination: let everything the calls started wind down (user functions may still
+	// be finishing their virtual work, detached cancellers may still be due), then nothing
+	// started by a call may be alive
+	for _, w := range worlds {
+		for _, a := range w.aux {
+			r.JoinTimeout(time.Hour, a)
+		}
+	}
+	active := func() int {
+		n := 0
+		for _, w := range worlds {
+			n += w.userActive
+		}
+		return n
+	}
+	prev, same := "", 0
+	for i := 0; i < 50 && (active() > 0 || len(callTasks(r)) > 0) && same < 3; i++ {
+		r.Sleep(10 * time.Second)
+		r.Quiesce()
+		now := fmt.Sprint(active(), callTasks(r))
+		if now == prev {
+			same++
+		} else {
+			prev, same = now, 0
+		}
+	}
+	if w2 != nil && w2.returned && !w2.checked {
+		// nested call that was dispatched only after the outer call had wound down
+		r.Probe("nested-call-started-late")
+		w2.checkOutcome()
+		if r.Failed() {
+			return
+		}
+	}
+	if active() > 0 {
+		r.Fail("user-fn-stuck", "user functions still running long after the call returned: %d (scenario %s; alive: %v)", active(), modeName, r.AliveTasks())
+		return
+	}
+	if left := callTasks(r); len(left) > 0 {
+		class := "goroutine-leak"
+		for _, w := range worlds {
+			if w.writeRacedClose() {
+				// scenario class: a reducer write was in flight when output got closed (cancel / context end)
+				class = "goroutine-leak/reducer-write-races-close"
+			}
+		}
+		r.Fail(class, "goroutines started by the call are still alive after all user functions returned (scenario %s, disturbance %s, variant %d): %v", modeName, dNames[w1.p.dist], w1.p.variant, left)
+	}
+}
 
 func callTasks(r *simrt.Run) []string {
 	var out []string
@@ -505,16 +1054,26 @@ func callTasks(r *simrt.Run) []string {
 }
 
 func multisetEq(a, b []int) bool {
-	if len(a) != len(b) {
+	return len(a) == len(b) && subMultiset(a, b)
+}
+
+// subMultiset: every element of a occurs in b at least as often.
+func subMultiset(a, b []int) bool {
+	if len(a) > len(b) {
 		return false
 	}
 	x, y := append([]int{}, a...), append([]int{}, b...)
 	sort.Ints(x)
 	sort.Ints(y)
-	for i := range x {
-		if x[i] != y[i] {
+	j := 0
+	for _, v := range x {
+		for j < len(y) && y[j] < v {
+			j++
+		}
+		if j >= len(y) || y[j] != v {
 			return false
 		}
+		j++
 	}
 	return true
 }
@@ -531,31 +1090,36 @@ func (w *world) writeRacedClose() bool {
 			return false
 		}
 	}
-	if w.ctxEnded && w.ctxEndedAt < w.lastWriteStartAt {
-		return false
-	}
-	if w.p.dist == dCtxDeadline && w.p.distDur < w.lastWriteStartAt {
+	if w.cs.endedBefore(w.lastWriteStartAt) {
 		return false
 	}
 	return true
 }
 
-func (w *world) checkOutcome(val int, err error, panicVal any, hasVal bool, fnRuns map[int]int, retClk int) {
+func (w *world) isUserPanic(pv any) bool {
+	for _, up := range w.userPanics {
+		if samePanic(pv, up) {
+			return true
+		}
+	}
+	return false
+}
+
+func (w *world) checkOutcome() {
 	r, p := w.r, w.p
-	cancelled := len(w.cancelErrs) > 0 || w.cancelNil
-	disturbed := cancelled || w.ctxEnded || len(w.userPanics) > 0 || (p.useCtx && p.dist == dCtxDeadline)
+	w.checked = true
+	val, err, panicVal := w.val, w.err, w.panicVal
+	hasVal := p.variant == 0 || p.variant == 2
+	// disturbed: something the statement's second sentence is about had happened by the time the
+	// call returned (a cancel invoked, the context ended, a user function panicked)
+	disturbed := w.cancelledAtReturn || w.ctxEndedAtReturn || len(w.userPanics) > 0
 	// ---- panics
 	if panicVal != nil {
-		s := fmt.Sprint(panicVal)
-		if w.userPanics[s] {
+		if w.isUserPanic(panicVal) {
+			r.Probe("panic-reraised")
 			return
 		}
-		for up := range w.userPanics {
-			// the library may decorate the value; it must still be the user's
-			if strings.Contains(s, up) {
-				return
-			}
-		}
+		s := fmt.Sprint(panicVal)
 		if p.redKind == 3 && s == "more than one element written in reducer" && p.variant != 1 {
 			r.Probe("double-write-panic")
 			return
@@ -564,13 +1128,16 @@ func (w *world) checkOutcome(val int, err error, panicVal any, hasVal bool, fnRu
 		if strings.Contains(s, "send on closed channel") && w.writeRacedClose() {
 			class = "library-panic/reducer-write-races-close"
 		}
-		r.Fail(class, "the call panicked with %q which no user function raised (disturbance %s, reducer kind %d)", s, dNames[p.dist], p.redKind)
+		r.Fail(class, "call %s panicked with %q (%T) which no user function raised (disturbance %s, options %s, reducer kind %d)", w.tag, s, panicVal, dNames[p.dist], optNames[p.optKind], p.redKind)
 		return
 	}
 	if len(w.userPanics) > 0 && p.variant != 5 && p.variant != 3 {
 		// a user panic happened; the call may still have returned normally only if the
 		// panic came after the result was decided - not checkable soundly; accept
 		r.Probe("panic-not-reraised")
+	}
+	if p.variant == 4 && len(w.cancelErrs) >= 2 {
+		r.Probe("finish-several-errors")
 	}
 	// ---- errors
 	allowed := func(e error) bool {
@@ -582,7 +1149,7 @@ func (w *world) checkOutcome(val int, err error, panicVal any, hasVal bool, fnRu
 		if w.cancelNil && errors.Is(e, mr.ErrCancelWithNil) {
 			return true
 		}
-		if (w.ctxEnded || (p.useCtx && p.dist == dCtxDeadline)) && (errors.Is(e, context.DeadlineExceeded) || errors.Is(e, context.Canceled)) {
+		if w.ctxEndedAtReturn && (errors.Is(e, context.DeadlineExceeded) || errors.Is(e, context.Canceled)) {
 			return true
 		}
 		return false
@@ -598,7 +1165,7 @@ func (w *world) checkOutcome(val int, err error, panicVal any, hasVal bool, fnRu
 				}
 				// with a disturbance the reducer's write may have been dropped legitimately
 			} else {
-				r.Fail("foreign-error", "the call returned error %v which was neither passed to cancel nor a context error (disturbance %s)", err, dNames[p.dist])
+				r.Fail("foreign-error", "call %s returned error %v (%T) which was neither passed to cancel nor a context error (disturbance %s, user panics %d)", w.tag, err, err, dNames[p.dist], len(w.userPanics))
 			}
 			return
 		}
@@ -618,14 +1185,20 @@ func (w *world) checkOutcome(val int, err error, panicVal any, hasVal bool, fnRu
 			}
 		} else {
 			for i := 0; i < p.items; i++ {
-				if fnRuns[i] != 1 {
-					r.Fail("fn-count", "Finish: function %d ran %d times", i, fnRuns[i])
+				if w.mapped[i] != 1 {
+					r.Fail("fn-count", "Finish: function %d ran %d times", i, w.mapped[i])
 					return
 				}
 			}
 		}
 		if p.variant <= 2 {
-			if !multisetEq(w.written, w.reduced) {
+			if w.redQuit {
+				// the reducer walked away from its pipe: what it did receive must have been written, once
+				if !subMultiset(w.reduced, w.written) {
+					r.Fail("reduce-multiset", "mappers wrote %v, the reducer (which stopped early) received %v", w.written, w.reduced)
+					return
+				}
+			} else if !multisetEq(w.written, w.reduced) {
 				r.Fail("reduce-multiset", "mappers wrote %v, reducer received %v", w.written, w.reduced)
 				return
 			}
@@ -652,17 +1225,21 @@ func (w *world) checkOutcome(val int, err error, panicVal any, hasVal bool, fnRu
 	if err == nil && p.variant <= 2 || (err == nil && p.variant == 4) {
 		mustErr := false
 		why := ""
-		for _, c := range w.cancelReturned {
-			if w.redWrites == 0 || c < w.redWriteStartClk {
-				if c < retClk {
-					mustErr, why = true, "a cancel call had returned before the reducer began writing"
+		if p.variant <= 2 {
+			// what releases the caller with a nil error is a value written by the reducer or the
+			// reducer having returned: a cancel call that had returned before either of them began
+			// (and before the call returned) cannot have gone unnoticed
+			for _, c := range w.cancelReturned {
+				if c >= w.retClk || w.redWrites > 0 && c >= w.redWriteStartClk || w.redReturned && c >= w.redReturnClk {
+					continue
 				}
+				mustErr, why = true, "a cancel call had returned before the reducer began writing and before it returned"
 			}
-		}
-		if r.Cfg().StallPerMille == 0 {
-			for _, at := range w.cancelInvokedAt {
-				if w.redWrites > 0 && at < w.redWriteStartAt {
-					mustErr, why = true, fmt.Sprintf("cancel was invoked at %v, the reducer began writing at %v", at, w.redWriteStartAt)
+			if r.Cfg().StallPerMille == 0 {
+				for _, at := range w.cancelInvokedAt {
+					if w.redWrites > 0 && at < w.redWriteStartAt {
+						mustErr, why = true, fmt.Sprintf("cancel was invoked at %v, the reducer began writing at %v", at, w.redWriteStartAt)
+					}
 				}
 			}
 		}
@@ -670,7 +1247,17 @@ func (w *world) checkOutcome(val int, err error, panicVal any, hasVal bool, fnRu
 			mustErr, why = true, "a function passed to Finish returned an error"
 		}
 		if mustErr {
-			r.Fail("cancel-ignored", "the call returned (%d, nil) although %s (disturbance %s)", val, why, dNames[p.dist])
+			class := "cancel-ignored"
+			if p.variant == 1 || p.variant == 4 {
+				for _, ce := range w.cancelErrs {
+					if errors.Is(ce, mr.ErrReduceNoOutput) {
+						// scenario class: the error handed over is (or wraps) the package's own
+						// ErrReduceNoOutput and the entry point has no reducer output
+						class = "cancel-ignored/void-swallows-ErrReduceNoOutput"
+					}
+				}
+			}
+			r.Fail(class, "call %s returned (%d, nil) although %s (disturbance %s, cancel errors %v)", w.tag, val, why, dNames[p.dist], w.cancelErrs)
 		}
 	}
 }
